@@ -173,32 +173,6 @@ func compareHierarchy(img isoImage, node *isoNode, dir string, joliet bool, path
 			probs.add("content-bytes", "%s: %s", where, d)
 		}
 	}
-	for _, s := range src {
-		if !portableRx.MatchString(s.name) {
-			pending = append(pending, s)
-			continue
-		}
-		want := s.name
-		if !joliet {
-			want = strings.ToUpper(s.name)
-		}
-		found := -1
-		for ci, c := range node.Children {
-			if !used[ci] && c.Name == want {
-				found = ci
-				break
-			}
-		}
-		if found < 0 {
-			var have []string
-			for _, c := range node.Children {
-				have = append(have, c.Name)
-			}
-			probs.add("content-missing", "%s %s: source entry %q (expected identifier %q) not in the image directory (has %q)", tag, path, s.name, want, have)
-			continue
-		}
-		match(s, found)
-	}
 	// non-portable names (mapped by the generator in an unspecified way): an image entry is the counterpart of a
 	// source entry if a trial comparison of the two finds no difference; only if no candidate fits is the first
 	// candidate of the right kind and size used (and its differences reported)
@@ -218,6 +192,39 @@ func compareHierarchy(img isoImage, node *isoNode, dir string, joliet bool, path
 			}
 		}
 		return len(tp.list) == 0
+	}
+	for _, s := range src {
+		if !portableRx.MatchString(s.name) {
+			pending = append(pending, s)
+			continue
+		}
+		want := s.name
+		if !joliet {
+			want = strings.ToUpper(s.name)
+		}
+		// several image entries may carry this identifier (a non-portable sibling can be mapped onto it): take the one
+		// that matches by content, else the first
+		found := -1
+		for ci, c := range node.Children {
+			if !used[ci] && c.Name == want {
+				if found < 0 {
+					found = ci
+				}
+				if trial(s, c) {
+					found = ci
+					break
+				}
+			}
+		}
+		if found < 0 {
+			var have []string
+			for _, c := range node.Children {
+				have = append(have, c.Name)
+			}
+			probs.add("content-missing", "%s %s: source entry %q (expected identifier %q) not in the image directory (has %q)", tag, path, s.name, want, have)
+			continue
+		}
+		match(s, found)
 	}
 	for _, s := range pending {
 		found := -1
